@@ -67,6 +67,8 @@ KEY = {
     "parity": lambda x: (x % 2) if isinstance(x, int) else len(x) % 2,
     "const": lambda x: 0,
     "ident": lambda x: x,
+    "none_even": lambda x: None if (x % 2 == 0 if isinstance(x, int) else len(x) % 2 == 0) else "odd",
+    "falsy": lambda x: (0 if (x if isinstance(x, int) else len(x)) % 3 == 0 else ""),
 }
 
 
@@ -379,8 +381,12 @@ def enumerate_cases(tier):
             for pr in PRED:
                 for fn in ("dropwhile", "takewhile", "filterfalse"):
                     yield {"fn": fn, "seqs": [s], "kinds": K, "p": {"pred": pr}}
-            for key in (None, "parity", "const", "ident"):
+            for key in (None, "parity", "const", "ident", "none_even", "falsy"):
                 yield {"fn": "groupby", "seqs": [s], "kinds": K, "p": {"key": key}}
+            # elements that are None / falsy themselves
+            yield {"fn": "groupby", "seqs": [[None if x == 0 else x for x in s]], "kinds": K, "p": {"key": None}}
+            yield {"fn": "pairwise", "seqs": [[None if x == 0 else x for x in s]], "kinds": K, "p": {}}
+            yield {"fn": "zip_longest", "seqs": [[None if x == 0 else x for x in s], [7]], "kinds": K + ["s"], "p": {"fill": None}}
             yield {"fn": "pairwise", "seqs": [s], "kinds": K, "p": {}}
             yield {"fn": "cycle", "seqs": [s], "kinds": K, "p": {"k": 2 * len(s) + 3}}
             for f in ("add", "mul", "pair"):
@@ -488,7 +494,7 @@ def _gen(g):
     if fn == "groupby":
         return {"fn": fn, "seqs": [g.sample(st.lists(elem, max_size=20)) if ek != "int" else
                                    g.sample(st.lists(st.integers(0, 3), max_size=20))],
-                "kinds": [kind()], "p": {"key": g.choice([None, "parity", "const", "ident"])}}
+                "kinds": [kind()], "p": {"key": g.choice([None, "parity", "const", "ident", "none_even", "falsy"])}}
     if fn == "islice":
         n = g.int(1, 3)
         vals = [None, -1, 0, 1, 2, 3, 5, 8, 13, 40]
